@@ -1,6 +1,8 @@
 package simharness
 
 import (
+	"os"
+	"path/filepath"
 	"bytes"
 	"context"
 	"errors"
@@ -20,6 +22,7 @@ func init() {
 	register(&Scenario{Prop: "C13", Name: "writer-sink", Run: runWriterSink})
 	register(&Scenario{Prop: "C13", Name: "channel-sink", Run: runChannelSink})
 	register(&Scenario{Prop: "C13", Name: "filesink-special", Run: runFileSinkSpecial})
+	register(&Scenario{Prop: "C13", Name: "sink-reformat", Run: runSinkReformat})
 }
 
 // slowWriter appends to a shared buffer in two halves with a scheduling point
@@ -451,4 +454,68 @@ func runFileSinkSpecial(rc *RunCtx) {
 		rc.Failf("C13.special-path", "opened-file", "special path %s opened a file", path)
 	}
 	rc.NonTrivial = n > 1
+}
+
+// ---- C13: the event is formatted again (same key) while a sink is delivering it ------------
+//
+// Two pipelines of one event type share the Event; the second pipeline's formatter may store
+// its value under the same format key while the first pipeline's sink is writing. "Exactly the
+// bytes stored for the format" then means: the old value or the new one, whole -- never a mix.
+
+func runSinkReformat(rc *RunCtx) {
+	tp := rc.Tape
+	sim := rc.Sim
+	useFile := tp.Choose(3, "filesink") == 0
+	w := &slowWriter{plan: map[int]string{}}
+	var sink el.Node = &writer.Sink{Writer: w}
+	var dir string
+	if useFile {
+		d, err := os.MkdirTemp("", "simreformat-")
+		if err != nil {
+			panic(err)
+		}
+		dir = d
+		rc.Dir = d
+		sink = &el.FileSink{Path: d, FileName: "r.log"}
+	}
+	oldLen := 8 + tp.Choose(60, "oldlen")
+	old := []byte(fmt.Sprintf("<old:%s>\n", strings.Repeat("a", oldLen)))
+	// the new value fits into the old one's storage, or not
+	newLen := []int{oldLen, oldLen / 2, 1, oldLen + 7}[tp.Choose(4, "newlen")]
+	neu := []byte(fmt.Sprintf("<new:%s>\n", strings.Repeat("b", newLen)))
+	ev := &el.Event{Type: "t", Formatted: map[string][]byte{}}
+	ev.FormattedAs(el.JSONFormat, append(make([]byte, 0, len(old)+16), old...))
+	var perr error
+	done := 0
+	sim.Spawn("sink", func() {
+		simrt.Yield("sink:start")
+		_, perr = sink.Process(context.Background(), ev)
+		done++
+	})
+	nFmt := 1 + tp.Choose(2, "nformatters")
+	for i := 0; i < nFmt; i++ {
+		sim.Spawn(fmt.Sprintf("formatter%d", i), func() {
+			simrt.Yield("formatter:start")
+			ev.FormattedAs(el.JSONFormat, append([]byte(nil), neu...))
+			done++
+		})
+	}
+	sim.Run(nil)
+	rc.NonTrivial = true
+	rc.Desc = map[string]interface{}{"old_len": len(old), "new_len": len(neu), "file_sink": useFile}
+	if sim.Stuck || done != 1+nFmt {
+		rc.Failf("C13.stuck", stuckClass(sim), "did not finish: %s", strings.Join(sim.StuckInfo, "; "))
+		return
+	}
+	if perr != nil {
+		rc.Failf("C13.spurious-error", "reformat", "Process failed without any fault: %v", perr)
+		return
+	}
+	got := w.buf
+	if useFile {
+		got, _ = os.ReadFile(filepath.Join(dir, "r.log"))
+	}
+	if !bytes.Equal(got, old) && !bytes.Equal(got, neu) {
+		rc.Failf("C13.torn", "reformatted-while-writing", "the sink reported success and delivered %q: neither the value stored when it started (%q) nor the one stored meanwhile (%q)", got, old, neu)
+	}
 }
